@@ -41,12 +41,14 @@ def decoder_roots(P):
 PANIC_SETS = {'decoders': (decoder_roots, 'any wire decoder')}
 
 
-def rule_codec(P):
+def rule_codec(P, only=None):
     r = Res()
     bt = codec.codec_types(P)
     n = 0
     for (crate, ty), impls in sorted(bt.items()):
         if crate == 'mls_rs_codec':
+            continue
+        if only is not None and not only(crate, ty):
             continue
         n += 1
         kinds, sets, bad = codec.compare_type(P, impls)
